@@ -281,9 +281,9 @@ class Pwalk(ListPattern):
         index = self.start
         step_stream = stm.stream(self.steps)
         direction_stream = stm.stream(self.directions)
-        direction = direction_stream.next(inval)
 
         try:
+            direction = direction_stream.next(inval)  # raises StopStream
             while True:
                 step = step_stream.next(inval)  # raises StopStream
                 inval = yield from stm.embed(lst[int(index)], inval)
